@@ -20,7 +20,7 @@ from checks.nodecommon import Result, record, generic_replay
 
 PID = "C11"
 RULE = ("histories of 1..40 events {advance 1..n s, application request (traffic), DWR from the peer, DWA "
-        "from the peer, the peer stops / resumes reading (the node's output piles up)} on an inbound or outbound ready connection x (node idle, node dwa, "
+        "from the peer, 1..24 bytes of a request that trickles in, the peer stops / resumes reading (the node's output piles up)} on an inbound or outbound ready connection x (node idle, node dwa, "
         "peer idle, peer dwa) in 1..60 s incl. unset peer values x wakeup 1..10 s; horizons up to 10x the "
         "largest timeout. Non-trivial: >= 1 idle episode (a DWR was due) with a DWA outcome (answered, "
         "late, never); distinct by (configuration, script).")
@@ -71,6 +71,12 @@ def evaluate(case) -> Result:
         state_id = w.node.state_id
         closed_handled = False
         blocked = False
+        partial = [b""]          # rest of a request that is arriving in fragments
+
+        def flush_partial():
+            if partial[0]:
+                w.feed(c, partial[0], run=False)
+                partial[0] = b""
         # clock advances are observed second by second (a queued DWR behind a blocked socket shows
         # only in the connection state, which must be sampled before the DWA timeout closes it)
         expanded = []
@@ -88,8 +94,18 @@ def evaluate(case) -> Result:
                 w.advance(ev[1])
             elif kind == "TRAFFIC":
                 hbh += 1
+                flush_partial()
                 w.feed_msg(c, {"k": "REQ", "host": "peer1.example", "hbh": hbh, "e2e": hbh})
                 fed = "REQ"
+            elif kind == "FRAG":
+                # the next few bytes of a request that trickles in: bytes arrive, no message completes
+                if not partial[0]:
+                    hbh += 1
+                    partial[0] = W.build_msg({"k": "REQ", "host": "peer1.example", "hbh": hbh, "e2e": hbh})
+                piece, partial[0] = partial[0][:ev[1]], partial[0][ev[1]:]
+                w.feed(c, piece)
+                fed = "FRAG"
+                res.classes.append("fragment")
             elif kind == "BLOCK_TX":
                 blocked = True
                 c.remote.sock.tx_blocked = True       # the peer stops reading: output piles up in the node
@@ -109,12 +125,9 @@ def evaluate(case) -> Result:
                     t_dwr = now() - nc.dwa_wait_time
                     episodes += 1
                 continue
-            elif kind == "BYTES":
-                w.feed(c, b"\x01")          # a single byte of a never-completed frame: still 'bytes arrived'
-                # do not count as frame; keep the stream aligned by never completing it -> only use once at the end
-                fed = "BYTES"
             elif kind == "DWR":
                 hbh += 1
+                flush_partial()
                 w.feed_msg(c, {"k": "DWR", "host": "peer1.example", "hbh": hbh, "e2e": hbh})
                 fed = "DWR"
             elif kind == "DWA":
@@ -122,6 +135,7 @@ def evaluate(case) -> Result:
                 # answer the outstanding DWR if there is one, else a stray DWA
                 dwrs = [f for f in c.refresh() if f.code == W.CMD_DW and f.is_request]
                 ids = {"hbh": dwrs[-1].h["hbh"], "e2e": dwrs[-1].h["e2e"]} if dwrs else {"hbh": hbh, "e2e": hbh}
+                flush_partial()
                 w.feed_msg(c, dict(ids, k="DWA", host="peer1.example"))
                 fed = "DWA"
             new = c.refresh()[n_out:]
@@ -216,7 +230,8 @@ def shard_main(shard, nshards, tier, scale):
         big = max(timers["idle"], timers["dwa"], timers["p_idle"] or 0, timers["p_dwa"] or 0)
         adv = st.tuples(st.just("ADV"), st.one_of(st.integers(1, 3), st.integers(1, max(2, big + 12))))
         ev = st.one_of(adv, adv, adv, adv, st.tuples(st.just("TRAFFIC")), st.tuples(st.just("DWR")), st.tuples(st.just("DWA")),
-                       st.tuples(st.just("BLOCK_TX")), st.tuples(st.just("UNBLOCK_TX")))
+                       st.tuples(st.just("BLOCK_TX")), st.tuples(st.just("UNBLOCK_TX")),
+                       st.tuples(st.just("FRAG"), st.integers(1, 24)), st.tuples(st.just("FRAG"), st.integers(1, 24)))
         return {"dir": draw(st.sampled_from(["in", "out"])), "timers": timers, "seed": draw(st.integers(0, 3)),
                 "events": [list(e) for e in draw(st.lists(ev, min_size=1, max_size=40))]}
 
@@ -256,7 +271,7 @@ def run(tier, scale=1.0):
     rec = Recorder(PID)
     for d in hyp.pool_run(shard_main, (tier, scale)):
         rec.merge(d)
-    required = {"tx-blocked": 1, "dir:in": 1, "dir:out": 1, "episodes:2": 1, "closed-by-watchdog": 1, "peer-idle:True": 1,
+    required = {"fragment": 1, "tx-blocked": 1, "dir:in": 1, "dir:out": 1, "episodes:2": 1, "closed-by-watchdog": 1, "peer-idle:True": 1,
                 "peer-dwa:True": 1, "outcomes:2": 1}
     return finish(rec, tier=tier, level="exploration", rule=RULE, assumptions=ASSUME, t0=t0,
                   required_classes=required)
